@@ -25,6 +25,8 @@ type LoopSpec struct {
 	Invariants []Clause
 	Decreases  []Clause
 	Unroll     int // >0: unroll at most this many iterations, with unwinding assertion
+	Uses       []string // "loop k uses a b": parameterised lemmas assumed from this loop head on
+	Cut        bool // "loop k cutcontext": at the loop head forget what was assumed in the body so far (the invariants carry what is needed)
 }
 
 type CallAssert struct {
@@ -59,6 +61,10 @@ type FuncContract struct {
 	Expand     bool     // lemma: prove by expanding quantifiers over constant ranges
 	Uses       []string // lemmas assumed in this function
 	Wraps      map[string]bool // int mode: operators with modular (wrapping) semantics on unsigned types: shl add sub mul
+	WrapsInto  map[string]map[string]bool // "wraps add into x": only operations whose result is stored directly into local x
+	Induct     string // lemma: proved by induction on this (integer) parameter
+	Have       []Clause   // lemma: intermediate steps, proved in order before the ensures clauses, not exported
+	Triggers   [][]Clause // lemma: explicit (multi-)patterns for the universal closure
 	ParamNames []string // wildcard blocks ("f$*"): only closures with exactly these parameter names
 	Params     []SpecParam // for lemmas
 }
@@ -296,7 +302,23 @@ func ParseContractFile(path string) (*ContractFile, error) {
 				cur.Mode = rest
 			case "expand":
 				cur.Expand = true
+			case "induct":
+				cur.Induct = strings.TrimSpace(rest)
 			case "wraps":
+				if i := strings.Index(rest, " into "); i >= 0 {
+					if cur.WrapsInto == nil {
+						cur.WrapsInto = map[string]map[string]bool{}
+					}
+					for _, w := range strings.Fields(rest[:i]) {
+						if cur.WrapsInto[w] == nil {
+							cur.WrapsInto[w] = map[string]bool{}
+						}
+						for _, l := range strings.Fields(strings.ReplaceAll(rest[i+6:], ",", " ")) {
+							cur.WrapsInto[w][l] = true
+						}
+					}
+					break
+				}
 				if cur.Wraps == nil {
 					cur.Wraps = map[string]bool{}
 				}
@@ -305,6 +327,7 @@ func ParseContractFile(path string) (*ContractFile, error) {
 				}
 			case "params":
 				cur.ParamNames = strings.Fields(rest)
+			case "xuses":
 			case "uses":
 				cur.Uses = append(cur.Uses, strings.Fields(rest)...)
 			case "tier":
@@ -323,6 +346,22 @@ func ParseContractFile(path string) (*ContractFile, error) {
 					return nil, err
 				}
 				cur.Ensures = append(cur.Ensures, splitClause(c)...)
+			case "have":
+				c, err := mk(rest, d.line)
+				if err != nil {
+					return nil, err
+				}
+				cur.Have = append(cur.Have, c)
+			case "trigger":
+				var tr []Clause
+				for _, part := range splitTop(rest) {
+					c, err := mk(part, d.line)
+					if err != nil {
+						return nil, err
+					}
+					tr = append(tr, c)
+				}
+				cur.Triggers = append(cur.Triggers, tr)
 			case "assume":
 				c, err := mk(rest, d.line)
 				if err != nil {
@@ -380,6 +419,10 @@ func ParseContractFile(path string) (*ContractFile, error) {
 						}
 						ls.Decreases = append(ls.Decreases, c)
 					}
+				case "cutcontext":
+					ls.Cut = true
+				case "uses":
+					ls.Uses = append(ls.Uses, strings.Fields(body)...)
 				case "unroll":
 					n, err := strconv.Atoi(body)
 					if err != nil {
